@@ -25,7 +25,7 @@ def small(*zs):
 def resc_ok(v, e, to):
     if to >= e:
         return small(v, v * p10(to - e))
-    return small(v) and e - to <= 18   # intPow(10, e - to) must fit an int64
+    return small(v) and e - to <= 63   # intPow(10, d) wraps from d = 19 on (harmlessly) and is 0 from d = 64 on
 
 
 def in_domain(op, a, b=None, n=None, n2=None):
@@ -37,7 +37,7 @@ def in_domain(op, a, b=None, n=None, n2=None):
         return small(av, av + bv * p10(max(ae - be, 0)), av - bv * p10(max(ae - be, 0)))
     if op in ("mul", "pct_of"):
         bv, be = b
-        return small(av, bv, av * bv) and be <= 18
+        return small(av, bv, av * bv) and be <= 63
     if op == "div":
         bv, be = b
         return bv != 0 and small(av, bv, av * p10(be))
